@@ -141,7 +141,12 @@ class _Message(object):
         source_name = self.source_file or "[prelude]"
         if not self.location.is_synthetic and self.source_file in source_code:
             source_lines = source_code[self.source_file].splitlines()
-            source_line = source_lines[self.location.start.line - 1]
+            if self.location.start.line <= len(source_lines):
+                source_line = source_lines[self.location.start.line - 1]
+            else:
+                # Messages about the end of the file (e.g., at the final Dedent
+                # tokens) point one line past the last line of the source.
+                source_line = ""
         else:
             source_line = ""
         lines = self.message.splitlines()
